@@ -52,6 +52,11 @@ CHECKS = {
   text="Proof: members, history entries (with symbolic hash chains and fresh seeds), token files and the clock of one collection are a Lean state; upload, delete, move (onto free / existing names / itself), whole-collection replacement, delete-and-recreate, loss of the cache folder, clock jumps and syncs with any argument are total step functions. By induction over every history the invariant holds; hence for every token T handed out after any history and presented after any further history the answer is a refusal or a change list whose application to the holder's view yields exactly the current members; a sync never changes members; tokens younger than the maximum age are not refused unless an operation lost the token folder. Tie: random histories with up to five outstanding tokens against the real application (clock jumps by ageing cache files) on the 8 layouts; every REPORT/PROPFIND is compared with the compiled model (refused or not, token identity up to renaming, reported hrefs); a model-independent oracle applies each delta to the holder's view and compares with a fresh listing.",
   note="Trusted: Lean kernel, standard axioms; SHA-256 injective (ETags, history tags, token names are symbolic), os.urandom seeds fresh, pickle round trip, directory listing order stable while unchanged; the members map is fed from the real application's answers (object-model correctness is C01). Finding F23 (token outdated at birth after expiry of remembered deletions) was found by this check and fixed; 'nothing changed => same token' is claimed for unchanged clock only (expiry of remembered deletions changes the token by design).",
   ref="5/C07"),
+ "C13": dict(
+  technique="Lean 4 refinement theorem: with sound cache entries every history of requests, external file edits, restarts under the other keying mode and arbitrary cache manipulations (wipe, entries dropped, stale or foreign entries planted at any points) answers exactly like a cache-free reference + paired differential runs of the real application (reference vs cache tampered with, both keying modes, both cache locations) and model correspondence on content served and cache hit/miss",
+  text="Proof: a collection's files (content, size, mtime) and item-cache entries (key, derived data) are a Lean state; _get, upload, delete, move (entry carried, or the destination's stale entry left behind), whole-collection replacement (fresh entries, or none in the sub-folder layout), external edits and cache manipulations are total step functions. Invariant: every entry is sound (any file version carrying its key parses to its content) - kept by every step because written entries carry the key of the bytes they were derived from, hash keys identify bytes, and entries of the other keying mode never match. Hence run = cache-free reference for all histories, and two runs differing only in cache treatment answer alike. Tie: (a) the same random request history on a reference application and on one whose cache is wiped / partially removed / planted with remembered entries / restarted under the other keying mode, comparing status, ETag, bodies and listings with data; (b) the application under test vs the compiled model per item read: content served and hit/miss as logged by Radicale's own cache debug log.",
+  note="Trusted: Lean kernel, standard axioms; SHA-256 injective; Radicale's cache debug log as the hit/miss observation; a scratch application as the cache-free parser. Hypotheses stated in the theorem: mtime+size keying assumes an edit changes size or mtime (documented for that option); uploaded items re-read as what the uploader derived - finding F5 (vobject cannot re-read a folded line of blanks) violates exactly this and is reported as KNOWN-FINDING with its witness.",
+  ref="5/C13"),
  "C16": dict(
   technique="Lean 4 theorems: every line of the RFC 4791 9.9 tables (VEVENT, VTODO, VJOURNAL) is equivalent to the overlap test on the ranges the visitor emits; the early exit is sound for ordered occurrences; the cached hull encloses all ranges and the storage shortcut agrees with full evaluation + differential correspondence of comp_match / find_time_range / calendar-query with the model and an independent RFC oracle",
   text="Proof: visit_time_ranges is modelled per component type over integer seconds; for all values each table line's emitted ranges overlap a filter range iff the RFC condition (written independently) holds; the visitor's early exit equals 'some occurrence overlaps' for occurrences in non-decreasing order (proved for DAILY/WEEKLY progressions); the hull encloses every range, so skipping by hull and claiming a match by hull are both sound when ranges are well formed - hence an always-true extra condition cannot change a result. Tie: objects and boundary-placed ranges from the property's grammar through comp_match, find_time_range and real calendar-query REPORTs (with the extra condition before/after) vs the model driver and an RFC oracle over independently computed occurrences.",
